@@ -956,6 +956,7 @@ def run(prog, rep, tier):
     check_dispatch(prog, rep)
     check_from_hdf5_memo(prog, rep)
     check_masked_compact(prog, rep)
+    check_path_component(prog, rep)
     if check_ctor_roles(prog, rep) < 5:
         raise AnalysisError('HDF5-ctor-roles: fewer than 5 constructor arguments resolved')
     check_save_reduce(prog, rep)
@@ -1177,3 +1178,36 @@ def check_masked_compact(prog, rep):
                       'equals the mask for every element: an unmasked element equal to '
                       'fill_value comes back masked' % [(t, p) for t, p, _ in gs],
                       compact[0].lineno)
+
+
+def check_path_component(prog, rep):
+    """HDF5-path-component: dict keys accepted as "simple" are used as `subpath + key`; the
+    predicate must reject every string that does not name a fresh child ('' is the group itself,
+    '.' too, anything with '/' is a deeper path) and non-strings. Decided by constant folding of
+    the returned expression on literal witnesses."""
+    from ..dtable import eval_test
+    m = prog.module(HIO)
+    f = m.functions.get('valid_hdf5_path_component')
+    if f is None:
+        raise AnalysisError('valid_hdf5_path_component not found')
+    rets = [s for s in stmts_of(inline_temps(f)) if isinstance(s, ast.Return)]
+    pn = params(f)
+    if len(rets) != 1 or len(pn) != 1:
+        raise AnalysisError('valid_hdf5_path_component: expected one parameter, one return')
+    witnesses = [('', True, False), ('.', True, False), ('a/b', True, False), ('/', True, False),
+                 ('a', True, True), ('S z', True, True), (1, False, False), (None, False, False)]
+    for w, is_str, want in witnesses:
+        atoms = {'isinstance(%s, str)' % pn[0]: is_str}
+        got = eval_test(rets[0].value, atoms, {pn[0]: w})
+        rep.instance('HDF5-path-component', {'key': repr(w), 'accepted': got, 'expected': want})
+        if got is None:
+            raise AnalysisError('valid_hdf5_path_component: cannot fold `%s` for key %r' %
+                                (unparse(rets[0].value), w))
+        if got != want:
+            rep.violation('HDF5-path-component', m, 'valid_hdf5_path_component',
+                          'witness:%r' % (w, ),
+                          'the key %r is %s as a simple key (saved under `subpath + key`), but '
+                          '%s' % (w, 'accepted' if got else 'rejected',
+                                  'it does not name a fresh child of the group: saving fails or '
+                                  'overwrites' if got else 'it is a valid component'),
+                          rets[0].lineno)
